@@ -2,6 +2,7 @@ import FordModel.Proto
 import FordModel.Parse
 import FordModel.TypeSpec
 import FordModel.Mask
+import FordModel.Attribs
 namespace Ford
 open Proto Parse
 
@@ -59,6 +60,39 @@ def tErrStr (e : TypeSpec.TErr) : String := (reprStr e).replace "Ford.TypeSpec.T
 
 def mErrStr (e : Mask.Err) : String := (reprStr e).replace "Ford.Mask.Err." ""
 
+/-- split at every `sep` (no nesting) -/
+def splitOn (sep : Char) (s : Str) : List Str :=
+  let rec go : Str → Str → List Str
+    | [], cur => [cur.reverse]
+    | c :: cs, cur => if c == sep then cur.reverse :: go cs [] else go cs (c :: cur)
+  go s []
+
+/-- a list field: the empty field is the empty list -/
+def listOf (sep : Char) (s : Str) : List Str := if s.isEmpty then [] else splitOn sep s
+
+def optOf (s : Str) : Option Str :=
+  match s with
+  | '+' :: r => some r
+  | _ => none
+
+def entOf (s : Str) : Attribs.Ent :=
+  match splitOn '^' s with
+  | [n, d, i] => ⟨n, d, optOf i⟩
+  | _ => ⟨s, [], none⟩
+
+/-- `D|attr~attr|name^dims^init~..` or `A|kw|rest` -/
+def stmtOf (s : Str) : Attribs.Stmt :=
+  match splitOn '|' s with
+  | [['D'], as, es] => .decl (listOf '~' as) ((listOf '~' es).map entOf)
+  | [['A'], kw, rest] => .attr kw rest
+  | _ => .attr [] []
+
+def bStr (x : Bool) : Str := if x then ['1'] else ['0']
+
+def varStr (v : Attribs.Var) : Str :=
+  joinSep '^' [v.name, joinSep '~' v.attribs, v.dimension, v.intent, bStr v.optional, v.permission,
+               bStr v.parameter, optStr v.initial]
+
 def errStr (e : Err) : String := (reprStr e).replace "Ford.Parse.Err." ""
 def excStr (e : Exc) : String := (reprStr e).replace "Ford.Parse.Exc." ""
 
@@ -91,6 +125,13 @@ def dispatchC01 : List Str → Option (List Str)
         match Mask.restore Mask.nbsp s strs with
         | .ok r => some ["ok".toList, r]
         | .error e => some ["err".toList, (C01D.mErrStr e).toList]
+      | _ => some ["bad-args".toList]
+    else if cmd == "c01.attrs".toList then
+      match args with
+      | c1 :: c2 :: c3 :: c4 :: bd :: inherit :: stmts =>
+        match Attribs.run ⟨C01D.b c1, C01D.b c2, C01D.b c3, C01D.b c4⟩ (C01D.b bd) inherit (stmts.map C01D.stmtOf) with
+        | .ok vs => some ("ok".toList :: vs.map C01D.varStr)
+        | .error _ => some ["exc".toList, "indexError".toList]
       | _ => some ["bad-args".toList]
     else none
   | [] => none
